@@ -104,7 +104,7 @@ Definition val_is (v : valrec) (ns : list N) (e : envent) : bool :=
   (bytes_eqb (e_name e) [] || bytes_eqb (e_name e) (v_name v)).
 
 Definition pick (ns : list N) (e : envent) (vals : list valrec) : option valrec :=
-  find (fun v => (negb (val_identified v) && negb (ent_identified e)) || val_is v ns e) vals.
+  find (fun v => (negb (val_identified v) && negb (ent_identified e)) || (ent_identified e && val_is v ns e)) vals.
 
 Section Bind.
   Variable render : list N -> jdoc -> tres (list N).
